@@ -5,4 +5,10 @@ package restful
 var verifHarnesses = map[string]func(a []int){
 	"H_probe_tokenize": func(a []int) { H_probe_tokenize(a[0]) },
 	"H_C01":            func(a []int) { H_C01(a[0], a[1], a[2]) },
+	"H_C02":            func(a []int) { H_C02(a[0], a[1], a[2]) },
+	"H_C04":            func(a []int) { H_C04(a[0], a[1], a[2]) },
+	"H_C14":            func(a []int) { H_C14(a[0], a[1], a[2]) },
+	"H_C18":            func(a []int) { H_C18(a[0], a[1]) },
+	"H_C03":            func(a []int) { H_C03(a[0], a[1], a[2]) },
+	"H_C17":            func(a []int) { H_C17(a[0], a[1]) },
 }
